@@ -52,14 +52,14 @@ CHECKS = {
    note="Trusted: TLC, SymbolCache.tla, the executor / gated mock supplier in replay_symcache.rs. Cancellation excluded (as in the statement). Thread-level interleavings inside tokio are sampled only."),
  "C04": dict(
    level="model_checking", design_ref="DESIGN.md section 0 and section 5 'C05 / C04'",
-   technique="TLA+ models of the get_caller_frame loops of x86-64 (WalkerAmd64.tla), x86 with STACK WIN frame data / FPO / STACK CFI and grand-callee parameter sizes (WalkerX86.tla), ARM on iOS and Linux and ARM64 in both context layouts (WalkerArm.tla), each with a stack builder; TLC checks that the modelled walk of every built stack is exactly the generated call chain; every built stack is materialised and walked by the real walk_stack and compared frame for frame",
+   technique="TLA+ models of the get_caller_frame loops of x86-64 (WalkerAmd64.tla), x86 with STACK WIN frame data / FPO / STACK CFI and grand-callee parameter sizes (WalkerX86.tla), ARM on iOS and Linux and ARM64 in both context layouts (WalkerArm.tla), MIPS o32 and 64-bit (WalkerMips.tla), each with a stack builder; TLC checks that the modelled walk of every built stack is exactly the generated call chain; every built stack is materialised and walked by the real walk_stack and compared frame for frame",
    text="Build(chain) lays out a well-formed stack for every chain of up to MaxDepth calls; per call the caller is found by a frame record, by an unwind record of each kind the architecture has, or by scanning, with filler and parameter sizes chosen so that the record kinds meet every grand-callee parameter size. TLC proves MatchesBuild on each model (the walk returns exactly the chain, stops at its end, and knows the frame pointer wherever the chain hands it on); the harness turns each built stack into a real context, stack memory, module list and symbol text, runs walk_stack and compares return address, stack pointer, technique label, callee-saved register validity and values, and parameter size with the model.",
-   note="Trusted: TLC, the three Walker modules, harness/src/walk.rs (materialisation and projection through public, alias-aware accessors). MIPS has no builder. For STACK WIN frames only %ebp is compared among callee-saved registers (the stale validity of ebx/esi/edi is the finding recorded under C07)."),
+   note="Trusted: TLC, the three Walker modules, harness/src/walk.rs (materialisation and projection through public, alias-aware accessors). For STACK WIN frames only %ebp is compared among callee-saved registers (the stale validity of ebx/esi/edi is the finding recorded under C07)."),
  "C05": dict(
    level="model_checking", design_ref="DESIGN.md section 0 and section 5 'C05 / C04'",
-   technique="TLA+ models of the x86-64, x86, ARM and ARM64 walkers with the C05 predicates as invariants, exhaustively explored by TLC over every small stack / context / unwind-rule combination and replayed for exact agreement on the real walkers; for all walkers incl. MIPS, recorded real call stacks from seeded random inputs are judged by TLC (Trace_Walk.tla, exact u64 on limbs)",
+   technique="TLA+ models of the x86-64, x86, ARM, ARM64 and MIPS walkers with the C05 predicates as invariants, exhaustively explored by TLC over every small stack / context / unwind-rule combination and replayed for exact agreement on the real walkers; for all walkers, recorded real call stacks from seeded random inputs are judged by TLC (Trace_Walk.tla, exact u64 on limbs)",
    text="C05 is a set of predicates over the produced frames; they are stated once in TLA+ and evaluated (a) as invariants of the walker models over every small stack/context/rule combination, which the real walkers must reproduce exactly (return address, sp, technique, register validity and values), and (b) by TLC on call stacks recorded from the real walkers under seeded random contexts, stack bytes, module lists and symbol text.",
-   note="Trusted: TLC, Trace_Walk.tla, Words.tla (self-tested), the Walker modules, harness/src/walk.rs. Arbitrary inputs are sampled, not enumerated; MIPS has no step model."),
+   note="Trusted: TLC, Trace_Walk.tla, Words.tla (self-tested), the Walker modules, harness/src/walk.rs. Arbitrary inputs are sampled, not enumerated."),
  "C14": dict(
    level="model_checking", design_ref="DESIGN.md section 5 'C14'",
    technique="TLA+ specification of the process-state indexing rules (Processor.tla) with design invariants checked by TLC; every reachable dump description serialised by a frozen independent writer, processed by the real process_minidump and compared field by field",
